@@ -108,12 +108,12 @@ Judge(T, ever, q, limit, R) ==
                               /\ ~(SeqSet(c[2]) \subseteq TokensOf(rowOf(k).doc))
       part(S, w) == {k \in S \cap Keys(T) : rowOf(k).indexed = (w = "indexed")}
       extraClass(S, w) ==
-        IF q[1] = "bool" /\ w = "unindexed" /\ repeats
-           /\ (\A k \in S : \E i \in 1..Len(q[4]) : Matches(q[4][i], rowOf(k).doc))
-             THEN <<"must-not-missed-beside-repeated-term", w>>
-        ELSE IF q[1] = "bool" /\ w = "unindexed"
-                /\ (\A k \in S : \E i \in 1..Len(q[4]) : HasKind(q[4][i], "phrase") /\ Matches(q[4][i], rowOf(k).doc))
+        IF q[1] = "bool" /\ w = "unindexed"
+           /\ (\A k \in S : \E i \in 1..Len(q[4]) : HasKind(q[4][i], "phrase") /\ Matches(q[4][i], rowOf(k).doc))
              THEN <<"must-not-phrase-missed", w>>
+        ELSE IF q[1] = "bool" /\ w = "unindexed" /\ repeats
+                /\ (\A k \in S : \E i \in 1..Len(q[4]) : Matches(q[4][i], rowOf(k).doc))
+             THEN <<"must-not-missed-beside-repeated-term", w>>
         ELSE IF w = "indexed" /\ (\A k \in S : \E c \in andLeaves : absentExplains(c, k))
              THEN <<"and-ignored-absent-term", w>>
         ELSE IF HasKind(q, "match-and") /\ (\A k \in S : TokensOf(rowOf(k).doc) \cap Terms(q) # {})
